@@ -587,10 +587,7 @@ Proof.
     unfold list_of_vec, mat_of_lists. rewrite (nth_seq_map x (length rows) j 0 Hj). reflexivity.
 Qed.
 
-(* ---------------------------------------------------------------- non-vacuity: a 2x2 system that needs the row swap *)
-Definition ex_A : mat R := mat_of_lists [[1; 2]; [3; 4]].
-Definition ex_b : vec R := vec_of_list [5; 6].
-
+(* ---------------------------------------------------------------- non-vacuity *)
 Ltac rabs :=
   repeat match goal with
   | |- context [Rabs ?t] =>
@@ -603,10 +600,27 @@ Ltac rcmp :=
   | |- context [Reqb ?a ?b] =>
       first [ rewrite (proj2 (Reqb_true a b)) by lra | rewrite (proj2 (Reqb_false a b)) by lra ]
   end.
-Ltac rstep := cbv - [Rplus Rminus Rmult Rdiv Rinv Ropp Rabs Rltb Rleb Reqb IZR Rlt Rle]; rabs; rcmp.
 
-Lemma ex_ge_ok : exists x, ge 2 2 ex_A 2 ex_b (1 / 100) = Ok x.
+(* the 1x1 system 2 x = 6 is accepted (so the hypothesis of c08_solves is satisfiable) ... *)
+Lemma ex_ge_ok : exists x, ge 1 1 (fun _ _ => 2) 1 (fun _ => 6) (1 / 10) = Ok x.
 Proof.
-  unfold ge, ex_A, ex_b.
-  rstep. Show.
-Abort.
+  unfold ge. cbn [Nat.eqb negb].
+  assert (Hs : forall i, (i < 1)%nat -> scale_vec 1 (fun _ _ : nat => 2) i = 2).
+  { intros i Hi. unfold scale_vec. rewrite vretab_spec by exact Hi.
+    unfold scale_row. cbn [Nat.sub for_range nabs RNum]. rabs. reflexivity. }
+  unfold has_zero. cbn [seq existsb]. rewrite (Hs 0%nat) by lia.
+  cbn [neqb n0 RNum orb]. rcmp. cbn [orb].
+  unfold forward_elimination. cbn [Nat.sub for_range fflag fa fs].
+  rewrite (Hs 0%nat) by lia. cbn [nltb nabs ndiv RNum].
+  replace (2 / 2) with 1 by field. rabs. rcmp. cbn [fflag].
+  eexists. reflexivity.
+Qed.
+
+(* ... and the all-ones 2x2 matrix meets the hypothesis of c08_singular_refused *)
+Lemma ex_singular_hyp : exists w : vec R, (exists i, (i < 2)%nat /\ w i <> 0) /\
+  forall j, (j < 2)%nat -> Rsum_n 2 (fun i => w i * (fun _ _ : nat => 1) i j) = 0.
+Proof.
+  exists (fun i => if (i =? 0)%nat then 1 else -1). split.
+  - exists 0%nat. split; [lia|]. cbn. lra.
+  - intros j Hj. cbn. ring.
+Qed.
